@@ -758,6 +758,420 @@ def run_history(exe, base, idx, rng, thorough):
     return w
 
 
+# ----------------------------------------------------------------------------------------------------
+# stream `disc`: commands with DISCOVERED dependencies (deps: / deps-style: / working-directory) — added after the seeded changes C08-2
+# (relative discovered paths resolved against the wrong directory) and C08-5 (only the first rule of a makefile-style dependency file
+# read), which the histories above cannot see: none of their commands has a dependency file.  Own RNG stream ("C08x"): the histories
+# above are what they were.  The Lean side is the EXTENDED client (Model/BuildSystemClientX.lean, driver mode c08xclean).
+# ----------------------------------------------------------------------------------------------------
+DISC_STYLES = ["makefile", "makefile-ignoring-subsequent-outputs", "dependency-info"]
+DISC_HEADERS = ["src/inc/h0.h", "src/inc/h1.h", "src/inc/h2.h", "src/inc/h 3.h", "src/inc/h4#.h"]      # sources no command produces
+
+
+class DiscDesc:
+    """Shell commands K0.. in topological order.  A command with `deps` writes its own dependency file (a copy of a template rendered by
+    c11.py's writers: mk_file = documented Makefile escaping, separators, CRLF; di_encode = dependency-info records) with ONE RULE PER
+    OUTPUT, naming header files it really reads — every output's content depends on every header the correct parser reports, in the
+    order of the file (`read_list`) —, by paths relative to its working directory or absolute."""
+
+    def __init__(self, rng, k):
+        self.k = k
+        self.cmds = []
+        n = 2 + rng.below(2)
+        outs = []
+        for i in range(n):
+            name = "K%d" % i
+            c = {"name": name, "salt": 1 + rng.below(1000), "ver": 0, "src": "src/%s.c" % name,
+                 "inputs": ["src/%s.c" % name] + ([rng.choice(outs)] if outs and rng.chance(1, 2) else []),
+                 "outputs": ["o/%s.a" % name] + (["o/%s.b" % name] if (i + k) % 2 == 0 else []), "deps": None}
+            if i < 2 or rng.chance(2, 3):
+                style = DISC_STYLES[(k + i) % 3]
+                hs = rng.shuffle(DISC_HEADERS)
+                a = hs[:1 + rng.below(2)]
+                b = hs[len(a):len(a) + 1 + rng.below(2)]
+                rules = [a] + ([b] if len(c["outputs"]) > 1 else [])
+                c["deps"] = {"style": style, "wd": ["rel", "none", "abs"][(k // 3 + i) % 3], "rules": rules,
+                             "abs": {h: rng.chance(1, 4) for h in DISC_HEADERS}, "depsabs": rng.chance(1, 3),
+                             "sep": rng.below(3), "crlf": rng.chance(1, 4)}
+                self.normalize(c)
+            self.cmds.append(c)
+            outs.append(c["outputs"][0])
+        self.cmds.append({"name": "L", "salt": 7 + k, "ver": 0, "src": None, "inputs": [c["outputs"][0] for c in self.cmds],
+                          "outputs": ["o/prog"], "deps": None})
+
+    @staticmethod
+    def normalize(c):
+        d = c["deps"]
+        want = len(c["outputs"])
+        d["rules"] = (d["rules"] + [[]] * want)[:want]
+        if d["style"] == "makefile-ignoring-subsequent-outputs":
+            # only the first rule counts: the later rules name nothing the first does not (the command reads what it declares)
+            d["rules"] = [d["rules"][0]] * want
+
+    def read_list(self, c):
+        """the discovered sources of `c`, in the order the correct parser reports them"""
+        d = c["deps"]
+        if d is None:
+            return []
+        if d["style"] == "makefile-ignoring-subsequent-outputs":
+            return list(d["rules"][0])
+        return [h for r in d["rules"] for h in r]
+
+    def wdir(self, c, root):
+        d = c["deps"]
+        return None if d is None or d["wd"] == "none" else ("src" if d["wd"] == "rel" else root + "/src")
+
+    def spell(self, c, h, root):
+        d = c["deps"]
+        if d["abs"][h]:
+            return root + "/" + h
+        return h if d["wd"] == "none" else h[len("src/"):]
+
+    def template(self, c, root):
+        from . import c11
+        d = c["deps"]
+        if d["style"] == "dependency-info":
+            recs = [("V", b"llb-1")] + [("I", self.spell(c, h, root).encode()) for r in d["rules"] for h in r] + [("O", c["outputs"][0].encode())]
+            return c11.di_encode(recs)
+        rules = [(o.encode(), [((d["sep"] + j) % 3, self.spell(c, h, root).encode()) for j, h in enumerate(r)], d["crlf"])
+                 for o, r in zip(c["outputs"], d["rules"])]
+        return c11.mk_file(rules)
+
+    def script(self, c):
+        R = ".." if (c["deps"] and c["deps"]["wd"] != "none") else "."
+        q = lambda rel: "'%s/%s'" % (R, rel)
+        b = "echo %s >> %s; : %d; h=%d; " % (c["name"], q("log"), c["ver"], c["salt"])
+        for f in c["inputs"]:
+            b += "v=$(cat %s) || exit 1; h=$(( (h*131+v+7) %% %d )); " % (q(f), MOD)
+        for h in self.read_list(c):
+            b += "if [ -e %s ]; then w=$(cat %s); h=$(( (h*131+w+1+7) %% %d )); else h=$(( (h*131+7) %% %d )); fi; " % (q(h), q(h), MOD, MOD)
+        for j, o in enumerate(c["outputs"]):
+            b += "echo $(( (h*131+%d+7) %% %d )) > %s; touch -d @$((%d+VCLOCK)) %s; " % (j, MOD, q(o), BASE_T, q(o))
+        if c["deps"]:
+            b += "cp %s %s; " % (q("ctl/%s.tmpl" % c["name"]), q("o/%s.d" % c["name"]))
+        return b + "true"
+
+    def manifest(self, root):
+        L = ["client:", "  name: basic", "  version: 0", "", "targets:",
+             '  "": [%s]' % ", ".join('"%s"' % o for c in self.cmds for o in c["outputs"]), "", "commands:"]
+        for c in self.cmds:
+            L += ['  "%s":' % c["name"], "    tool: shell", "    inputs: [%s]" % ", ".join('"%s"' % i for i in c["inputs"]),
+                  "    outputs: [%s]" % ", ".join('"%s"' % o for o in c["outputs"]), '    args: ["/bin/sh", "-c", "%s"]' % self.script(c)]
+            d = c["deps"]
+            if d:
+                dn = "o/%s.d" % c["name"]
+                dn = (root + "/" + dn) if d["depsabs"] else (dn if d["wd"] == "none" else "../" + dn)
+                L += ['    deps: "%s"' % dn, "    deps-style: %s" % d["style"]]
+                if d["wd"] != "none":
+                    L.append('    working-directory: "%s"' % self.wdir(c, root))
+        return "\n".join(L) + "\n"
+
+    def sig(self, c, root):
+        """the definition of a command as the tool sees it (the absolute directory normalised)"""
+        txt = json.dumps([c["name"], c["inputs"], c["outputs"], self.script(c)])
+        if c["deps"]:
+            txt += self.manifest(root).split('  "%s":' % c["name"])[1].split('\n  "')[0] + self.template(c, root).hex()
+        return txt.replace(root, "<ROOT>")
+
+    def expected(self, val):
+        """independent evaluation: node -> number (`val` = contents of the files no command produces; None = missing)"""
+        out = {}
+        for c in self.cmds:
+            h = c["salt"]
+            for f in c["inputs"]:
+                v = out.get(f, val.get(f))
+                if v is None:
+                    h = None
+                    break
+                h = mix(h, v)
+            if h is not None:
+                for p in self.read_list(c):
+                    h = mix(h, 0 if val.get(p) is None else val[p] + 1)
+            for j, o in enumerate(c["outputs"]):
+                out[o] = None if h is None else mix(h, j)
+        return out
+
+    def to_json(self):
+        return {"k": self.k, "cmds": self.cmds}
+
+
+class DiscWorld:
+    def __init__(self, exe, base, k, rng, seed):
+        self.exe, self.rng, self.k, self.seed = exe, rng, k, seed
+        self.d = os.path.realpath(base) + "/x%d" % k
+        self.clean = self.d + "-clean"
+        self.clock = 1
+        self.rec, self.fails, self.trace, self.model_cases = {}, [], [], []
+        self.stats = {"builds": 0, "clean_builds": 0, "null": 0, "executed": 0, "must_run_checked": 0, "must_not_run_checked": 0,
+                      "discovered_edits": 0, "discovered_second_edits": 0, "discovered_deletes": 0, "discovered_recreations": 0,
+                      "declared_edits": 0, "desc_edits": 0, "output_edits": 0, "unlisted_edits": 0, "model_nodes": 0}
+        shutil.rmtree(self.d, ignore_errors=True)
+        self.desc = DiscDesc(rng, k)
+        self.setup(self.d)
+
+    def setup(self, root):
+        for x in ("ctl", "o", "src/inc"):
+            os.makedirs(os.path.join(root, x), exist_ok=True)
+        open(os.path.join(root, "build.llbuild"), "w").write(self.desc.manifest(root))
+        for c in self.desc.cmds:
+            if c["deps"]:
+                open(os.path.join(root, "ctl", c["name"] + ".tmpl"), "wb").write(self.desc.template(c, root))
+
+    def sources(self):
+        return [c["src"] for c in self.desc.cmds if c["src"]] + DISC_HEADERS
+
+    def tick(self):
+        self.clock += 1
+        return self.clock
+
+    def write(self, rel, val):
+        p = os.path.join(self.d, rel)
+        with open(p, "w") as f:
+            f.write("%d\n" % val)
+        t = (BASE_T + self.tick()) * 10**9
+        os.utime(p, ns=(t, t))
+
+    def value(self, root, rel):
+        try:
+            return int(open(os.path.join(root, rel)).read())
+        except (OSError, ValueError):
+            return None
+
+    def bad(self, what, **kw):
+        f = {"what": "[disc %d] %s" % (self.k, what), "route": "e2e", "stream": "disc",
+             "input": {"stream": "disc", "k": self.k, "seed": self.seed, "history": list(self.trace), "desc": json.loads(json.dumps(self.desc.to_json()))}}
+        f.update(kw)
+        self.fails.append(f)
+
+    def run_tool(self, cwd, jobs, db):
+        args = [self.exe, "buildsystem", "build", "-f", "build.llbuild"] + (["--db", db] if db else ["--no-db"]) + \
+               (["--serial"] if jobs == 1 else ["-j", str(jobs)])
+        try:
+            os.unlink(os.path.join(cwd, "log"))
+        except FileNotFoundError:
+            pass
+        env = dict(os.environ)
+        env["VCLOCK"] = str(self.tick())
+        p = subprocess.run(args, cwd=cwd, stdout=subprocess.PIPE, stderr=subprocess.STDOUT, timeout=120, env=env)
+        lp = os.path.join(cwd, "log")
+        log = open(lp).read().split() if os.path.exists(lp) else []
+        return p.returncode, log, p.stdout.decode("utf-8", "replace")
+
+    def build(self, jobs, label="build", why=""):
+        d = self.desc
+        self.stats["builds"] += 1
+        self.setup(self.d)
+        allouts = [o for c in d.cmds for o in c["outputs"]]
+        watch = set(allouts) | set(self.sources())
+        pre = {n: stat_tok(os.path.join(self.d, n)) for n in watch}
+        rc, log, out = self.run_tool(self.d, jobs, "build.db")
+        post = {n: stat_tok(os.path.join(self.d, n)) for n in watch}
+        self.trace.append({"op": label, "jobs": jobs, "rc": rc, "log": log, "why": why})
+        self.stats["executed"] += len(log)
+        if rc != 0:
+            self.bad("%s: the build fails (exit %d) although every command can succeed: %s" % (label, rc, out[-300:]), clause="spurious-failure")
+            self.rec = {}
+            return False
+        for nm in sorted(set(log)):
+            if log.count(nm) > 1:
+                self.bad("%s: command %s executed %d times in one build" % (label, nm, log.count(nm)), clause="once", command=nm)
+        # C09's re-run rule on observable state, extended: ... or a recorded DISCOVERED source changed
+        for c in d.cmds:
+            r = self.rec.get(c["name"])
+            reason = cat = None
+            if r is None:
+                reason = cat = "never built"
+            elif r["sig"] != d.sig(c, self.d):
+                reason = cat = "definition changed"
+            elif any(pre.get(o) != r["outs"].get(o) for o in c["outputs"]):
+                reason = cat = "an output changed"
+            elif any(post.get(i) != r["seen"].get(i, "never") for i in c["inputs"]):
+                reason = cat = "a declared input changed"
+            else:
+                ch = [h for h in r["disc"] if post.get(h) != r["seen"].get(h, "never")]
+                if ch:
+                    cat = "a discovered source changed"
+                    reason = "the discovered source %s (listed in its dependency file, rule %s) changed" % (
+                        ch[0], [j + 1 for j, rr in enumerate((c["deps"] or {}).get("rules", [])) if ch[0] in rr])
+            ran = c["name"] in log
+            if reason is not None:
+                self.stats["must_run_checked"] += 1
+                if not ran:
+                    self.bad("%s (%s): command %s was NOT re-executed although it had to be (%s)" % (label, why, c["name"], reason),
+                             clause="rerun-missed", command=c["name"], why=cat,
+                             deps_style=(c["deps"] or {}).get("style"), working_directory=(c["deps"] or {}).get("wd"))
+            else:
+                self.stats["must_not_run_checked"] += 1
+                if ran:
+                    self.bad("%s (%s): command %s was re-executed although its definition, inputs, outputs and discovered sources are unchanged" % (
+                        label, why, c["name"]), clause="rerun-unnecessary", command=c["name"], null=(label == "null build"))
+            if ran:
+                self.rec[c["name"]] = {"sig": d.sig(c, self.d), "outs": {o: post.get(o) for o in c["outputs"]}, "disc": d.read_list(c),
+                                       "seen": {i: post.get(i) for i in c["inputs"] + d.read_list(c)}}
+        self.compare_clean(jobs, label, why)
+        return True
+
+    def compare_clean(self, jobs, label, why):
+        d = self.desc
+        shutil.rmtree(self.clean, ignore_errors=True)
+        self.setup(self.clean)
+        for s in self.sources():
+            sp = os.path.join(self.d, s)
+            if os.path.exists(sp):
+                shutil.copy2(sp, os.path.join(self.clean, s))
+        self.stats["clean_builds"] += 1
+        rc, log, out = self.run_tool(self.clean, jobs, None)
+        names = sorted(c["name"] for c in d.cmds)
+        if rc != 0 or sorted(log) != names:
+            self.bad("reference clean build did not run every command once and succeed (exit %d, log %s) %s" % (rc, sorted(log), out[-200:]), clause="reference")
+            return
+        val = {s: self.value(self.d, s) for s in self.sources()}
+        want = d.expected(val)
+        outs = [o for c in d.cmds for o in c["outputs"]]
+        diff = []
+        for o in outs:
+            got, ref = self.value(self.d, o), self.value(self.clean, o)
+            if got != ref:
+                prod = next(c for c in d.cmds if o in c["outputs"])
+                diff.append({"node": o, "incremental": got, "clean": ref, "producer": prod["name"], "deps_style": (prod["deps"] or {}).get("style"),
+                             "working_directory": (prod["deps"] or {}).get("wd")})
+            if ref != want.get(o):
+                self.bad("clean build output %s = %r but the command computes %r" % (o, ref, want.get(o)), clause="reference")
+        if diff:
+            x = diff[0]
+            self.bad("after %s (%s; %s) output %s contains %r; a clean build of the same description and sources gives %r (%d outputs differ; "
+                     "producer %s: deps-style %s, working-directory %s)" % (label, why, "serial" if jobs == 1 else "-j%d" % jobs, x["node"], x["incremental"],
+                                                                            x["clean"], len(diff), x["producer"], x["deps_style"], x["working_directory"]),
+                     clause="outputs-equal-clean", tool="shell", deps_style=x["deps_style"], working_directory=x["working_directory"], diff=diff[:4])
+        # the Lean side: clean values of the extended client for this description, these sources and the dependency files on disk
+        nodes = self.sources() + outs
+        idx = {n: i for i, n in enumerate(nodes)}
+        L = []
+        for n in nodes:
+            v = val.get(n) if n not in outs else None
+            L.append("node %d 0 %d" % (idx[n], 0 if v is None else v + 1))
+            L.append("path %d %s" % (idx[n], C.hexs((self.d + "/" + n).encode())))
+        for ci, c in enumerate(d.cmds):
+            L.append("cmd %d 0 %d %s %s" % (ci, c["salt"], ",".join(str(idx[i]) for i in c["inputs"]), ",".join(str(idx[o]) for o in c["outputs"])))
+            if c["deps"]:
+                try:
+                    data = C.hexs(open(os.path.join(self.d, "o", c["name"] + ".d"), "rb").read())
+                except OSError:
+                    data = "x"
+                W = self.d if c["deps"]["wd"] == "none" else self.d + "/src"
+                L.append("xdepsb %d %s %s %s" % (ci, c["deps"]["style"], C.hexs(W.encode()), data))
+        L.append("evalx")
+        self.model_cases.append((L, nodes, {o: self.value(self.d, o) for o in outs}, list(self.trace[-2:]), d.to_json()))
+        shutil.rmtree(self.clean, ignore_errors=True)
+
+
+def run_disc_history(exe, base, k, rng, thorough, seed):
+    w = DiscWorld(exe, base, k, rng, seed)
+    d = w.desc
+    for s in w.sources():
+        if not (s in DISC_HEADERS and rng.chance(1, 6)):
+            w.write(s, 1 + rng.below(100000))
+    jobs_of = lambda: 1 if rng.chance(1, 2) else 4
+
+    def null():
+        if rng.chance(1, 2):
+            w.stats["null"] += 1
+            w.build(jobs_of(), "null build")
+    w.build(jobs_of(), "first build")
+    null()
+    withdeps = [c for c in d.cmds if c["deps"]]
+    for step in range((12 if thorough else 7) + rng.below(3)):
+        c = rng.choice(withdeps)
+        k = rng.below(12)
+        listed = d.read_list(c)
+        if k < 4 and listed:
+            # a discovered source is edited TWICE with a build in between (a dependency recorded by the first run must still be
+            # recorded after the re-run); later rules / positions are as likely as the first
+            h = listed[-1] if rng.chance(1, 2) else rng.choice(listed)
+            w.write(h, 1 + rng.below(100000))
+            w.trace.append({"op": "edit-discovered", "node": h, "command": c["name"]})
+            w.stats["discovered_edits"] += 1
+            w.build(jobs_of(), why="edit of %s, discovered by %s" % (h, c["name"]))
+            null()
+            w.write(h, 1 + rng.below(100000))
+            w.trace.append({"op": "edit-discovered-again", "node": h, "command": c["name"]})
+            w.stats["discovered_second_edits"] += 1
+            w.build(jobs_of(), why="second edit of %s, discovered by %s" % (h, c["name"]))
+        elif k < 6 and listed:
+            h = rng.choice(listed)
+            if os.path.exists(os.path.join(w.d, h)):
+                os.unlink(os.path.join(w.d, h))
+                w.trace.append({"op": "delete-discovered", "node": h, "command": c["name"]})
+                w.stats["discovered_deletes"] += 1
+                w.build(jobs_of(), why="deletion of %s, discovered by %s" % (h, c["name"]))
+                null()
+            w.write(h, 1 + rng.below(100000))
+            w.trace.append({"op": "create-discovered", "node": h, "command": c["name"]})
+            w.stats["discovered_recreations"] += 1
+            w.build(jobs_of(), why="(re-)creation of %s, discovered by %s" % (h, c["name"]))
+        elif k == 6:
+            w.write(c["src"], 1 + rng.below(100000))
+            w.trace.append({"op": "edit-source", "node": c["src"]})
+            w.stats["declared_edits"] += 1
+            w.build(jobs_of(), why="edit of the declared input %s" % c["src"])
+        elif k == 7:
+            free = [h for h in DISC_HEADERS if all(h not in d.read_list(x) for x in d.cmds)]
+            if free:
+                w.write(rng.choice(free), 1 + rng.below(100000))
+                w.trace.append({"op": "edit-unlisted-header"})
+                w.stats["unlisted_edits"] += 1
+                w.build(jobs_of(), "null build", why="edit of a header no dependency file lists")
+                w.stats["null"] += 1
+                continue
+        elif k == 8:
+            o = rng.choice(c["outputs"])
+            if rng.chance(1, 2):
+                os.unlink(os.path.join(w.d, o)) if os.path.exists(os.path.join(w.d, o)) else None
+            else:
+                w.write(o, 5 + rng.below(1000))
+            w.trace.append({"op": "tamper-output", "node": o})
+            w.stats["output_edits"] += 1
+            w.build(jobs_of(), why="output %s deleted / overwritten" % o)
+        else:
+            # description edits around the dependency file
+            dd = c["deps"]
+            m = rng.below(6)
+            if m == 0:
+                r = rng.choice(dd["rules"])
+                cand = [h for h in DISC_HEADERS if h not in r]
+                if cand:
+                    r.insert(rng.below(len(r) + 1), rng.choice(cand))
+            elif m == 1:
+                r = rng.choice(dd["rules"])
+                if len(r) > 1:
+                    r.pop(rng.below(len(r)))
+            elif m == 2:
+                dd["style"] = rng.choice([s for s in DISC_STYLES if s != dd["style"]])
+            elif m == 3:
+                dd["wd"] = rng.choice([x for x in ("rel", "none", "abs") if x != dd["wd"]])
+            elif m == 4:
+                h = rng.choice(DISC_HEADERS)
+                dd["abs"][h] = not dd["abs"][h]
+                dd["depsabs"] = not dd["depsabs"] if rng.chance(1, 2) else dd["depsabs"]
+            else:
+                c["salt"] += 1 + rng.below(50)
+            dd["rules"] = [list(r) for r in dd["rules"]]
+            DiscDesc.normalize(c)
+            c["ver"] += 1
+            w.trace.append({"op": "edit-description", "command": c["name"], "deps": json.loads(json.dumps(dd))})
+            w.stats["desc_edits"] += 1
+            w.build(jobs_of(), why="description of %s edited" % c["name"])
+        null()
+    w.build(jobs_of(), "final build")
+    w.stats["null"] += 1
+    w.build(jobs_of(), "null build")
+    w.stats["deps_commands"] = len(withdeps)
+    w.stats["multi_rule_makefile_commands"] = sum(1 for c in withdeps if c["deps"]["style"] == "makefile" and len(c["deps"]["rules"]) > 1)
+    shutil.rmtree(w.d, ignore_errors=True)
+    shutil.rmtree(w.clean, ignore_errors=True)
+    return w
+
+
 def probe_directory_attribute(exe, base):
     """F19: a node declared `type: directory` must be a directory node (its tree is tracked), exactly like `is-directory: true`.
     The node is named `sd/` (a directory node by default): before the fix the explicit attribute turned it into a PLAIN node."""
@@ -885,7 +1299,8 @@ class Check(PropertyCheck):
         "header - probe of ./check C11), with the discovered list a function of the contents of the DECLARED inputs (Engine.Program.disc "
         "does not see the external state: a header that includes another header is modelled by the full list), and with the F22 ghost flag "
         "of C01 (pendingDropped = false: no failed build ended while discovered dependencies were still pending) as a hypothesis that can no "
-        "longer be discharged; the extension is tied to the real tool by the `clientx` streams of ./check C10 and ./check C11; "
+        "longer be discharged; the extension is tied to the real tool by the `disc` stream here (commands writing their own dependency files; clean-build "
+        "oracle + c08xclean against the files on disk) and by the `clientx` streams of ./check C10 and ./check C11; "
         "directory-tree nodes are C12",
         "description edits ARE proved (Props/C08Gen.lean: C08_outputs_clean_gen / C08_inputs_current_gen = C01_value_gen / C01_inputs_gen at "
         "`fun g => client H (ds g)`; a description edit = the tool started again on the same database with another description; the client "
@@ -904,7 +1319,8 @@ class Check(PropertyCheck):
     ]
     trusted_base = ["extractor x_bsrules (lookupRule dispatch, validity guards, forceChange, signature recipes)",
                     "python history oracle against the real `llbuild buildsystem build` (clean-build comparison, C09 re-run rule, C10 failure rules)",
-                    "Lean driver mode c08clean vs. real output files"]
+                    "Lean driver mode c08clean vs. real output files; c08xclean (extended client, dependency files by their bytes) vs. the output files of "
+                    "the `disc` histories"]
 
     def correspond(self, ctx, res):
         exe = os.path.join(C.BUILD, "plain", "bin", "llbuild")
@@ -915,7 +1331,11 @@ class Check(PropertyCheck):
         res.oracle_failures += probe_allow_modified_outputs(exe, base)
         n = 1000 if ctx.thorough else 110
         seeds = [ctx.rng.next() for _ in range(n)]
+        # stream `disc` (commands with discovered dependencies): its seeds are drawn AFTER the ones above, its histories use their own stream
+        nd = 300 if ctx.thorough else 36
+        dseeds = [ctx.rng.next() for _ in range(nd)]
         worlds = [None] * n
+        dworlds = [None] * nd
         errs = []
         nxt = [0]
         lock = threading.Lock()
@@ -925,10 +1345,13 @@ class Check(PropertyCheck):
                 with lock:
                     i = nxt[0]
                     nxt[0] += 1
-                if i >= n:
+                if i >= n + nd:
                     return
                 try:
-                    worlds[i] = run_history(exe, base, i, C.Rng(seeds[i], "C08h"), ctx.thorough)
+                    if i < n:
+                        worlds[i] = run_history(exe, base, i, C.Rng(seeds[i], "C08h"), ctx.thorough)
+                    else:
+                        dworlds[i - n] = run_disc_history(exe, base, i - n, C.Rng(dseeds[i - n], "C08x"), ctx.thorough, dseeds[i - n])
                 except Exception as e:       # a crashed history is a broken tie, never silently dropped
                     import traceback
                     errs.append("history %d: %s\n%s" % (i, e, traceback.format_exc()[-600:]))
@@ -977,13 +1400,54 @@ class Check(PropertyCheck):
                         tot["model_nodes"] = tot.get("model_nodes", 0) + 1
                         if want != txt and len(res.mismatches) < 20:
                             res.mismatches.append({"stream": "c08clean", "input": {"node": o, "ops": ls, "last_build": tr}, "model": want, "impl": txt})
-        res.evaluations = tot.get("builds", 0) + tot.get("clean_builds", 0)
-        res.distinct_nontrivial = tot.get("success", 0)
-        res.distribution = dict(tot, histories=n)
+        # stream `disc`: oracle failures, and the Lean evaluator of the EXTENDED client (c08xclean) against the files on disk
+        dtot = {"styles": {}, "working_directory": {}}
+        dcases = []
+        for w in dworlds:
+            if w is None:
+                continue
+            res.oracle_failures += w.fails
+            for k, v in w.stats.items():
+                dtot[k] = dtot.get(k, 0) + v
+            for c in w.desc.cmds:
+                if c["deps"]:
+                    dtot["styles"][c["deps"]["style"]] = dtot["styles"].get(c["deps"]["style"], 0) + 1
+                    dtot["working_directory"][c["deps"]["wd"]] = dtot["working_directory"].get(c["deps"]["wd"], 0) + 1
+            dcases += w.model_cases
+        if dcases:
+            mrc, mout, merr = run_model("c08xclean", [l for c in dcases for l in c[0]])
+            if mrc != 0 or len(mout) != len(dcases):
+                if ctx.model_ok:
+                    res.mismatches.append({"stream": "c08xclean", "input": "model driver exit %d, %d/%d lines" % (mrc, len(mout), len(dcases)), "model": merr[-300:]})
+            else:
+                for (ls, nodes, files, tr, dj), ml in zip(dcases, mout):
+                    vals = {}
+                    for tok in ml.split():
+                        a, _, b = tok.partition("=")
+                        if a.isdigit():
+                            vals[nodes[int(a)]] = b
+                    for o, got in files.items():
+                        dtot["model_nodes"] = dtot.get("model_nodes", 0) + 1
+                        if vals.get(o) != (None if got is None else str(got)) and len(res.mismatches) < 20:
+                            res.mismatches.append({"stream": "c08xclean", "input": {"node": o, "ops": ls, "last_builds": tr, "desc": dj},
+                                                   "model": vals.get(o), "impl": got})
+        res.evaluations = tot.get("builds", 0) + tot.get("clean_builds", 0) + dtot.get("builds", 0) + dtot.get("clean_builds", 0)
+        res.distinct_nontrivial = tot.get("success", 0) + dtot.get("builds", 0)
+        res.distribution = dict(tot, histories=n, disc=dict(dtot, histories=nd))
         res.rule = ("seeded histories over generated descriptions (<= 10 commands; shell/phony/mkdir/symlink; multiple outputs; virtual nodes; "
                     "targets: all, a subset, single nodes) of {edit source, delete/overwrite output, add/remove/rewire/change command, source becomes "
                     "produced and back, break/repair a command, delete/recreate a source, build, null build}; serial and -j4, one database per history, "
-                    "every build a new process.  Non-trivial = successful incremental builds compared with a clean build.")
+                    "every build a new process.  Non-trivial = successful incremental builds compared with a clean build.  "
+                    "DISC (own RNG stream, 36 / thorough 300 histories): 2-3 shell commands + a link step, most of them with `deps:` + `deps-style:` "
+                    "(makefile, makefile-ignoring-subsequent-outputs, dependency-info; files rendered by c11.py's writers mk_file / di_encode: documented "
+                    "escaping incl. a space and a '#' in a name, three separators, CRLF) and `working-directory` absent / relative / absolute; a "
+                    "command writes its own dependency file with ONE RULE PER OUTPUT and different prerequisites per rule, naming SOURCE headers it "
+                    "really reads by paths relative to its working directory or absolute; histories edit a discovered source TWICE with builds in "
+                    "between (any rule, any position), delete and re-create it, edit declared inputs, tamper with outputs, edit a header nobody "
+                    "lists, and edit the description (header added to / removed from a rule, deps-style, working-directory, spelling, arguments); "
+                    "after every build: comparison with a clean build in a fresh directory, the C09 re-run rule extended with 'a recorded "
+                    "discovered source changed', and the Lean evaluator of the EXTENDED client (c08xclean: the dependency files' bytes as left on "
+                    "disk -> absDepsFile -> cleanEvalX) against every output file.")
         res.exhaustive = False
         if worlds and worlds[0]:
             res.samples.append({"history": worlds[0].trace[:6]})
